@@ -1919,6 +1919,43 @@ def daemon_session(seed: int, idx: int, corpus: list[Case], steps: int) -> dict[
         shutil.rmtree(d, ignore_errors=True)
 
 
+STALE_SEQ: list[dict[str, str]] = [
+    {"main.py": "x = 1\n"},
+    {"main.py": "import a\n", "a.py": "        pass\nclass A:\n"},          # new module with a syntax error
+    {"main.py": "import a\n", "a.py": "class A:\n    pass\n\n\n"},          # ... repaired (different size, later second)
+]
+
+
+def daemon_script(seq: list[dict[str, str]]) -> list[tuple[int, str, bool]]:
+    """A fixed edit history against a fresh daemon: `check -- main.py` after every edit (own mtime second each)."""
+    d = tempfile.mkdtemp(prefix="c20-dms-")
+    sf = os.path.join(d, "status.json")
+    wd = os.path.join(d, "w")
+    os.makedirs(wd)
+    out: list[tuple[int, str, bool]] = []
+    clock = int(time.time()) - 100000
+    try:
+        st, o, h = _dmypy(sf, ["start", "--", "--show-traceback", "--no-error-summary", "--no-color-output", "--cache-dir", os.devnull], wd)
+        if st != 0:
+            return [(st, o, h)]
+        for files in seq:
+            clock += 7
+            for f in os.listdir(wd):
+                os.remove(os.path.join(wd, f))
+            for rel, src in files.items():
+                with open(os.path.join(wd, rel), "w") as fh:
+                    fh.write(src)
+                os.utime(os.path.join(wd, rel), (clock, clock))
+            out.append(_dmypy(sf, ["check", "--", "main.py"], wd))
+        return out
+    finally:
+        try:
+            _dmypy(sf, ["kill"], d, limit=20)
+        except Exception:  # noqa
+            pass
+        shutil.rmtree(d, ignore_errors=True)
+
+
 def classify_daemon(ev: dict[str, Any]) -> tuple[str, str] | None:
     out = ev.get("out", "")
     if ev.get("hung"):
@@ -1994,7 +2031,7 @@ def stage_S(ctx: vlib.Ctx) -> None:
         ctx.cov["worker_cpu_s"] = round(cpu, 1)
         ctx.cov["worker_restarts"] = pool.restarts
         # 3. subprocess sample: true exit codes of `python -m mypy`, incremental off
-        n_sub = ctx.n(16, 96)
+        n_sub = ctx.n(16, 96) if n_mut else 0        # (VERIF_C20_MUTANTS=0: developer mode, probes only)
         sub_jobs = [make_mutant(ctx.seed, i, corpus) for i in range(0, n_sub)]
         sub = run_sub_sample(sub_jobs, vlib.NPROC)
         sub_status: dict[str, int] = {}
@@ -2007,10 +2044,19 @@ def stage_S(ctx: vlib.Ctx) -> None:
         ctx.add("evaluations", n_sub)
         ctx.log(f"S: subprocess sample {n_sub}: {sub_status} ({time.time()-t0:.1f}s)")
         # 4. daemon sample
-        n_dm, steps = ctx.n(8, 48), ctx.n(5, 10)
+        n_dm, steps = (ctx.n(8, 48) if n_mut else 0), ctx.n(5, 10)
         from concurrent.futures import ThreadPoolExecutor
         with ThreadPoolExecutor(max_workers=vlib.NPROC) as ex:
             sessions = list(ex.map(lambda i: daemon_session(ctx.seed, i, corpus, steps), range(n_dm)))
+        if n_mut or os.environ.get("VERIF_C20_DAEMON_PROBE"):
+            rs_ = daemon_script(STALE_SEQ)
+            ctx.cov["daemon_probe_stale_new_module"] = [[a, b[-200:]] for a, b, _ in rs_]
+            if len(rs_) == len(STALE_SEQ) and rs_[1][0] == 1 and "syntax" in rs_[1][1] and (rs_[2][0] != 0 or rs_[2][1].strip()):
+                ctx.violation("daemon:stale-blocking-error-in-new-module",
+                              "the daemon keeps reporting the syntax error of a newly imported module after the module was repaired "
+                              f"(`dmypy check main.py` answers {rs_[2][1].strip()[-120:]!r}, a fresh run answers nothing)",
+                              {"kind": "daemon-history", "history": STALE_SEQ, "answers": [[a, b] for a, b, _ in rs_],
+                               "command": "dmypy start; then after each edit: dmypy check -- main.py"})
         dm_steps = 0
         differs = 0
         for s in sessions:
@@ -2023,6 +2069,13 @@ def stage_S(ctx: vlib.Ctx) -> None:
                     record(found, k[0], k[1], job, {"status": ev["status"], "out": ev["out"], "err": ""}, "daemon")
                 if ev["step"] == "final" and ev.get("same_as_first") is False and classify_daemon(ev) is None:
                     differs += 1
+                    if not any("syntax]" in (e2.get("out") or "") or "invalid syntax" in (e2.get("out") or "") for e2 in s["events"]):
+                        # (stale answers that follow a blocking error are the finding daemon:stale-blocking-error-in-new-module;
+                        #  any other difference is reported under its own key)
+                        ctx.violation("daemon:stale-answer-after-history",
+                                      f"daemon answers differently for the same files after a history of edits ({s['case']})",
+                                      {"kind": "daemon-history", "history": [e2["files"] for e2 in s["events"]],
+                                       "first": ev.get("first", ""), "final": ev["out"][-3000:]})
                     ctx.sample({"daemon_answer_differs": s["case"], "first": ev.get("first", "")[-400:], "final": ev["out"][-400:]})
         ctx.cov["daemon_sessions"] = n_dm
         ctx.cov["daemon_requests_answered"] = dm_steps
